@@ -607,22 +607,29 @@ def has_side_effect(node: ast.AST, safe_callable_whitelist: Collection[str] = fr
         return True
 
     if isinstance(node, (ast.FunctionDef, ast.AsyncFunctionDef)):
-        # Decorators, default values and annotations are evaluated when the function is defined
-        return node.name != "_" or any(
-            has_side_effect(item, safe_callable_whitelist)
-            for item in itertools.chain(node.decorator_list, [node.args, node.returns])
-        )
+        # Decorators are called, and default values and annotations are evaluated, when the
+        # function is defined
+        return (
+            node.name != "_"
+            or bool(node.decorator_list)
+            or any(
+                has_side_effect(item, safe_callable_whitelist)
+                for item in (node.args, node.returns)
+        ))
 
     if isinstance(node, ast.ClassDef):
-        # Decorators, bases and the class body are evaluated when the class is defined
-        return node.name != "_" or any(
-            has_side_effect(item, safe_callable_whitelist)
-            for item in itertools.chain(
-                node.decorator_list,
-                node.bases,
-                (keyword.value for keyword in node.keywords),
-                node.body,
-        ))
+        # Decorators are called, and bases and the class body are evaluated, when the class is
+        # defined
+        return (
+            node.name != "_"
+            or bool(node.decorator_list)
+            or any(
+                has_side_effect(item, safe_callable_whitelist)
+                for item in itertools.chain(
+                    node.bases,
+                    (keyword.value for keyword in node.keywords),
+                    node.body,
+        )))
 
     if isinstance(node, ast.For):
         return any(
